@@ -43,6 +43,7 @@ ID = 'C18'
 LEAN_MODULES = ['Py65.Props.C18']
 NAMESPACES = ['Py65.Props.C18']
 LEVEL = 'proof'
+USES_PROLOGUE = True
 USES_GEN = False
 EXPECTED_THEOREMS = [
     'Py65.Props.C18.io_trace', 'Py65.Props.C18.io_mapping_stable', 'Py65.Props.C18.io_session',
